@@ -64,9 +64,15 @@ func stringify0(v *val.Val, inProcess util.PtrSet) string {
 	case types.KObj:
 		o := v.Obj()
 		fs := o.Type.Obj().Fields
+		// 与 val.String 一致按字段名排序, 相等的对象(字段顺序不同)转换成相同的字符串
+		ord := make([]int, len(o.V))
+		for i := range o.V {
+			ord[i] = i
+		}
+		sort.SliceStable(ord, func(i, j int) bool { return fs[ord[i]].Name < fs[ord[j]].Name })
 		xs := make([]string, len(o.V))
-		for i, v2 := range o.V {
-			xs[i] = fmt.Sprintf("%s: %s", fs[i].Name, stringify0(v2, inProcess))
+		for j, i := range ord {
+			xs[j] = fmt.Sprintf("%s: %s", fs[i].Name, stringify0(o.V[i], inProcess))
 		}
 		return util.JoinStr(xs, ", ", "{", "}")
 	case types.KFun:
